@@ -32,4 +32,27 @@ for m in muts:
     if not okall:
         bad += 1
         print('     expected:', json.dumps(m['expect']))
+# benign refactors: nothing may fire
+known = json.load(open(os.path.join(VERIF, 'known_findings.json')))
+kset = set((k['property'], k['rule'], k['key']) for k in known['findings'])
+for b in idx.get('benign', []):
+    if len(sys.argv) > 1 and not any(a in b['name'] for a in sys.argv[1:]):
+        continue
+    r = selfcheck.run_mutant(b, '/repo', pids, want=('violation', 'undecided'))
+    if r['status'] != 'ran':
+        print('%-45s %s %s' % (b['name'], r['status'], r.get('why', '')[:300]))
+        bad += 1
+        continue
+    hits = {}
+    for p, v in r['violations'].items():
+        v2 = [x for x in v if (p, x['rule'], x['key']) not in kset]
+        if v2:
+            hits[p] = v2
+    print('%-45s %s' % (b['name'], 'SILENT' if not hits else 'FALSE ALARM: ' + ', '.join('%s[%s]' % (p, ','.join(sorted(set(x['rule'] + ('?' if x.get('verdict') == 'undecided' else '') for x in v)))) for p, v in sorted(hits.items()))))
+    if hits:
+        bad += 1
+        if os.environ.get('VERBOSE'):
+            for p, v in sorted(hits.items()):
+                for x in v:
+                    print('      ', p, x.get('verdict'), x['rule'], x['key'])
 sys.exit(1 if bad else 0)
